@@ -118,6 +118,18 @@ fn case<S: Shape>(r: &mut Rng, acc: &mut Acc, index: u64, verbose: bool) {
             k.pos = r.below(65) as f32 / 64.0;
         }
     }
+    // one case in five: arbitrary f32 positions (0.1, 0.2, 0.637...) under a zero delay — the cycles of the exact
+    // regime are powers of two, so t = cycle x p (x 1/2 when reversing) still maps onto the keyframe exactly in the
+    // first cycle; instants that do not map exactly are recognised below and not judged
+    if r.chance(1, 5) {
+        spec.delay = 0.0;
+        for k in spec.kfs.iter_mut() {
+            k.pos = match r.below(4) {
+                0 => *r.pick(&[0.1f32, 0.2, 0.3, 0.7, 0.9, 0.05]),
+                _ => r.unit() as f32,
+            };
+        }
+    }
     spec.kfs.sort_by(|a, b| a.pos.total_cmp(&b.pos));
     if r.chance(1, 4) {
         spec.repeat = Rep::Times(*r.pick(&[2u32, 5, 17, 64]));
